@@ -9,8 +9,8 @@ Import ListNotations.
 Local Open Scope R_scope.
 
 Lemma st2tot2_tpld_chain_ok1 : st2tot2_tpld_chain_stmt1.
-Proof. unfold st2tot2_tpld_chain_stmt1. jac ltac:(unfold f_st2tot2_tpld_chain1_l, f_st2tot2_tpld_chain1, D_st2tot2_tpld_chain1_l, D_st2tot2_tpld_chain1) ltac:(idtac). Qed.
+Proof. unfold st2tot2_tpld_chain_stmt1. jac_t 600 ltac:(lazy beta iota zeta delta [upd nthR List.firstn List.skipn List.app List.nth Nat.mul Nat.add f_st2tot2_tpld_chain1_l f_st2tot2_tpld_chain1 D_st2tot2_tpld_chain1_l D_st2tot2_tpld_chain1]) ltac:(idtac). Qed.
 Lemma st2tot2_tpld_chain_ok2 : st2tot2_tpld_chain_stmt2.
-Proof. unfold st2tot2_tpld_chain_stmt2. jac ltac:(unfold f_st2tot2_tpld_chain2_l, f_st2tot2_tpld_chain2, D_st2tot2_tpld_chain2_l, D_st2tot2_tpld_chain2) ltac:(idtac). Qed.
+Proof. unfold st2tot2_tpld_chain_stmt2. jac_t 600 ltac:(lazy beta iota zeta delta [upd nthR List.firstn List.skipn List.app List.nth Nat.mul Nat.add f_st2tot2_tpld_chain2_l f_st2tot2_tpld_chain2 D_st2tot2_tpld_chain2_l D_st2tot2_tpld_chain2]) ltac:(idtac). Qed.
 Lemma st2tot2_tpld_chain_ok3 : st2tot2_tpld_chain_stmt3.
-Proof. unfold st2tot2_tpld_chain_stmt3. jac ltac:(unfold f_st2tot2_tpld_chain3_l, f_st2tot2_tpld_chain3, D_st2tot2_tpld_chain3_l, D_st2tot2_tpld_chain3) ltac:(idtac). Qed.
+Proof. unfold st2tot2_tpld_chain_stmt3. jac_t 3000 ltac:(lazy beta iota zeta delta [upd nthR List.firstn List.skipn List.app List.nth Nat.mul Nat.add f_st2tot2_tpld_chain3_l f_st2tot2_tpld_chain3 D_st2tot2_tpld_chain3_l D_st2tot2_tpld_chain3]) ltac:(idtac). Qed.
